@@ -495,11 +495,11 @@ def cut_async(trace):
     return " ".join(out)
 
 class Case:
-    __slots__ = ("body", "decl", "mode", "probe", "hists", "depths", "create", "tag", "exp", "sig", "run_hists", "marks")
+    __slots__ = ("body", "decl", "mode", "probe", "hists", "depths", "create", "tag", "exp", "sig", "run_hists", "marks", "emarks")
     def __init__(self, body, decl, mode, probe, hists, depths, create, tag, sig=None):
         self.body, self.decl, self.mode, self.probe = body, decl, mode, probe
         self.hists, self.depths, self.create, self.tag = hists, depths, create, tag
-        self.exp, self.sig, self.run_hists, self.marks = None, sig, None, None
+        self.exp, self.sig, self.run_hists, self.marks, self.emarks = None, sig, None, None, None
     def src(self): return js_func(self.body, self.mode, self.probe, self.decl)
     def tokens(self): return " ".join(tok_block(self.body))
     def harness_line(self):
@@ -512,6 +512,7 @@ class Case:
         return Case(self.body, self.decl, self.mode, self.probe, [self.hists[i]], [self.depths[i]], [self.create[i]], self.tag, self.sig)
 
 KNOWN_RETURNING = "goja:go-panic-exception-caught-while-generator-returning"
+KNOWN_ENF_PTR = "goja:enterNextFinallyFrame-stale-tryframe-pointer-after-closing-an-iterator"
 
 def set_expected(case, model_out, cut=True):
     """Sets case.exp (spec traces) and case.marks (index of the first command that raises a Go-panic-origin exception
@@ -519,12 +520,16 @@ def set_expected(case, model_out, cut=True):
     With cut=True such a history is sent to goja only up to that command (case.run_hists): the defect corrupts the vm /
     crashes the process and would poison the other histories sharing the runtime; a sample is run in full, isolated."""
     tr = model_out.split(" # ")
-    exp, marks, run = [], [], []
+    exp, marks, run, emarks = [], [], [], []
     for h, t in zip(case.hists, tr):
-        idx = None
+        idx = None; eidx = None
+        if "%" in t:
+            t, i = t.rsplit("%", 1)
+            t, eidx = t.strip(), int(i)
         if "@" in t:
             t, i = t.rsplit("@", 1)
             t, idx = t.strip(), int(i)
+        emarks.append(eidx)
         if case.mode == "async":
             t = cut_async(t)
             idx = None
@@ -533,7 +538,7 @@ def set_expected(case, model_out, cut=True):
         else:
             run.append(h)
         exp.append(t); marks.append(idx)
-    case.exp, case.marks, case.run_hists = exp, marks, run
+    case.exp, case.marks, case.run_hists, case.emarks = exp, marks, run, emarks
 
 def first_diff(exp, obs):
     e, o = exp.split(" "), obs.split(" ")
@@ -560,6 +565,10 @@ def compare(case, hline):
             idx = case.marks[i]
             d = first_diff(exp[i], obs[i])
             known = idx is not None and ((d is not None and d >= idx) or obs[i].startswith("PANIC") or obs[i].startswith("ERR"))
+            if not known:
+                eidx = case.emarks[i]
+                if eidx is not None and d is not None and d >= eidx:
+                    known = "E"
             mm.append((i, exp[i], obs[i], known))
     return mm, h.get("mech") or [], h.get("idle", "ok"), None
 
@@ -790,7 +799,10 @@ def main(ctx):
         if idle != "ok":
             idle_bad.append((c, idle))
         for (i, e, o, known) in mm:
-            (known_hits if known else bad[c.mode]).append((c, i, e, o))
+            if known:
+                known_hits.append((c, i, e, o, known))
+            else:
+                bad[c.mode].append((c, i, e, o))
         for i, idx in enumerate(c.marks):
             if idx is not None and len(cut_list) < 5000:
                 cut_list.append((c, i))
@@ -821,9 +833,19 @@ def main(ctx):
             for c1, mm in ex.map(run_iso, iso):
                 n_hist += 1
                 if mm is not None:
-                    (known_hits if mm[3] else bad["gen"]).append((c1, 0, mm[1], mm[2]))
+                    if mm[3]:
+                        known_hits.append((c1, 0, mm[1], mm[2], mm[3]))
+                    else:
+                        bad["gen"].append((c1, 0, mm[1], mm[2]))
     ctx.stats["unrepaired_defect_territory"] = {"histories_cut": len(cut_list), "run_isolated": len(iso), "mismatches_attributed": len(known_hits)}
-    for (c, i, e, o) in known_hits[:1]:
+    e_hits = [k for k in known_hits if k[4] == "E"]
+    known_hits = [k for k in known_hits if k[4] != "E"]
+    ctx.stats["unrepaired_defect_territory"]["enterNextFinallyFrame_pointer_mismatches"] = len(e_hits)
+    for (c, i, e, o, _) in e_hits[:1]:
+        c1 = c.single(i)
+        ctx.violation(KNOWN_ENF_PTR, "%s {%s} history [%s] depths %s: spec %s / goja %s" % (c1.mode, c1.src()[:260], c1.hists[0], c1.depths[0], e, o),
+                      replay_dict(c1, e, o, False))
+    for (c, i, e, o, _) in known_hits[:1]:
         c1 = c.single(i)
         ctx.violation(KNOWN_RETURNING, "%s {%s} history [%s]: spec %s / goja %s" % (c1.mode, c1.src()[:260], c1.hists[0], e, o),
                       replay_dict(c1, e, o, False))
@@ -941,6 +963,9 @@ def replay(ctx, path):
         h = d["history"] if mode == "gen" else ("n:u " + d["history"]).strip()
         rc, mo, _ = ctx.run_lines([model], ["G " + " ".join(tok_block(body)) + " # " + h])
         exp = mo[0] if mo else "?"
+        if "%" in exp:
+            exp, i = exp.rsplit("%", 1); exp = exp.strip()
+            print("note     : command %s is a return(v) that closes an iterator before a finally (territory of %s)" % (i, KNOWN_ENF_PTR))
         if "@" in exp:
             exp, i = exp.rsplit("@", 1); exp = exp.strip()
             print("note     : from command %s on the history is in the territory of the unrepaired finding %s" % (i, KNOWN_RETURNING))
